@@ -540,7 +540,8 @@ class Unit:
     """One function of /repo under contract."""
 
     def __init__(self, name, file, fn, header, impl=None, sig=None, wrap=('', ''), loops=(), subs=(), proofs=(),
-                 pre='', anyhow=True, fn_rx=None, serves=(), note='', rules=True, post_subs=(), text=None, subs_all=(), closures=None, rsubs=(), mut_self=False, strlit=False):
+                 pre='', anyhow=True, fn_rx=None, serves=(), note='', rules=True, post_subs=(), text=None, subs_all=(), closures=None, rsubs=(), mut_self=False, strlit=False, renames=()):
+        self.renames = list(renames)   # R30: (regex with one group, canonical name): alpha-rename a local to the name the sidecar uses
         self.name = name          # display name, e.g. "Bound::pow"
         self.file = file
         self.impl = impl          # regex of the impl header (None = free fn)
@@ -577,6 +578,18 @@ class Unit:
         body = f['body']
         if self.apply_rules:
             body = rules.apply(body, anyhow=self.anyhow)
+        for rx, canon in self.renames:
+            # R30: a local variable introduced by the statement matching `rx` is alpha-renamed to the name the sidecar uses, when the source uses another name and the
+            # sidecar's name does not occur in the function (a capture-free renaming of a local: nothing is lost)
+            ms = re.findall(rx, body)
+            if len(ms) != 1:
+                continue        # the statement itself is checked by the substitutions / anchors that follow
+            nm = ms[0]
+            if nm != canon:
+                if re.search(r'(?<![\.\w])%s\b(?!\s*:(?!:))' % re.escape(canon), body):      # field labels `name:` do not count
+                    raise LostAnchor('local %r of %s cannot be renamed to %r: that name is in use' % (nm, self.name, canon))
+                body = re.sub(r'(?<![\.\w])%s\b(?!\s*:(?!:))' % re.escape(nm), canon, body)
+                rules.hit('R30')
         if self.strlit:
             body, n = re.subn(r'"((?:[^"\\]|\\.)*)"', lambda m: strlit_of(m.group(1)), body)
             rules.hit('R8', n)
